@@ -223,7 +223,7 @@ func asInts(v *xVal) ([]int64, error) {
 	if v.Kind == "fail" {
 		return nil, xErr(v)
 	}
-	out := []int64{}
+	var out []int64 // nil for an empty list: an empty list, not null, also out of a batch function's result map
 	for _, e := range v.List {
 		out = append(out, e.Sc)
 	}
@@ -233,7 +233,7 @@ func asAs(v *xVal) ([]*XA, error) {
 	if v.Kind == "fail" {
 		return nil, xErr(v)
 	}
-	out := []*XA{}
+	var out []*XA // nil for an empty list: an empty list, not null, also out of a batch function's result map
 	for _, e := range v.List {
 		a, _ := asA(e)
 		out = append(out, a)
@@ -244,7 +244,7 @@ func asBs(v *xVal) ([]*XB, error) {
 	if v.Kind == "fail" {
 		return nil, xErr(v)
 	}
-	out := []*XB{}
+	var out []*XB // nil for an empty list: an empty list, not null, also out of a batch function's result map
 	for _, e := range v.List {
 		b, _ := asB(e)
 		out = append(out, b)
@@ -269,7 +269,7 @@ func asUs(v *xVal) ([]*XU, error) {
 	if v.Kind == "fail" {
 		return nil, xErr(v)
 	}
-	out := []*XU{}
+	var out []*XU // nil for an empty list: an empty list, not null, also out of a batch function's result map
 	for _, e := range v.List {
 		u, _ := asU(e)
 		out = append(out, u)
@@ -329,6 +329,10 @@ func init() {
 		addField("A", "bs"+m.suffix, "bs", "Bs", m.mode, m.par)
 		addField("A", "u"+m.suffix, "u", "U", m.mode, m.par)
 	}
+	// batch functions marked Expensive (no fallback)
+	addField("A", "xBx", "x", "sc", "batchexp", 0)
+	addField("A", "bBx", "b", "B", "batchexp", 0)
+	addField("A", "bsBx", "bs", "Bs", "batchexp", 0)
 	addField("A", "usEx", "us", "Us", "external", 0)
 	addField("A", "usBa", "us", "Us", "batch", 0)
 	addField("A", "sEx", "s", "ints", "external", 0)
@@ -343,6 +347,7 @@ func init() {
 		addField("B", "p"+m.suffix, "p", "sc", m.mode, m.par)
 		addField("B", "a"+m.suffix, "a", "A", m.mode, m.par)
 	}
+	addField("B", "pBx", "p", "sc", "batchexp", 0)
 	addField("B", "qEx", "q", "sc", "external", 0)
 	addField("B", "cEx", "a", "A", "external", 0)
 	// a pointer-returning batch resolver marked NonNullable: a nil entry is an error, never null
@@ -384,7 +389,7 @@ func useBatchFlag(ctx context.Context) bool { b, _ := ctx.Value(xFlagKey{}).(boo
 // registerA registers one field of A/B/Q with the real schema builder in its mode.
 func registerField(obj *schemabuilder.Object, f *xField) {
 	var opts []schemabuilder.FieldFuncOption
-	if f.Mode == "expensive" {
+	if f.Mode == "expensive" || f.Mode == "batchexp" {
 		opts = append(opts, schemabuilder.Expensive)
 	}
 	if f.Par > 0 {
@@ -403,7 +408,7 @@ func registerField(obj *schemabuilder.Object, f *xField) {
 		}
 		return nil
 	}
-	batchy := f.Mode == "batch" || f.Mode == "fallback"
+	batchy := f.Mode == "batch" || f.Mode == "fallback" || f.Mode == "batchexp"
 	switch f.Obj + ":" + f.Ty {
 	case "A:sc":
 		one := func(ctx context.Context, a *XA) (int64, error) { return asScalar(get(a.N, src)) }
@@ -564,7 +569,7 @@ func regOne(obj *schemabuilder.Object, f *xField, batchy bool, one, many interfa
 		}
 	}
 	switch {
-	case f.Mode == "batch":
+	case f.Mode == "batch", f.Mode == "batchexp":
 		obj.BatchFieldFunc(f.Name, many, opts...)
 	case f.Mode == "fallback":
 		obj.BatchFieldFuncWithFallback(f.Name, many, one, useBatchFlag, opts...)
@@ -667,6 +672,9 @@ func xSchemaEnc(flag bool) interface{} {
 		fs := []interface{}{}
 		for _, f := range xFieldsOf(o) {
 			mode := f.Mode
+			if mode == "batchexp" {
+				mode = "batch" // a batch function marked Expensive: the same answers, scheduled as its own work unit
+			}
 			if mode == "fallback" {
 				if flag {
 					mode = "fallbackT"
@@ -1001,6 +1009,49 @@ func (g *xQGen) selSet(typ string, depth int) *xSelSet {
 				on = map[string]string{"A": "B", "B": "A", "Q": "A"}[typ]
 			}
 			ss.Frags = append(ss.Frags, g.frag(on, depth))
+		}
+	}
+	// next to a named fragment that selects an object field, another fragment selecting the same alias with its own
+	// sub-selection: where the named fragment is spread at several places, its selection is the first occurrence of
+	// several different merges (merging must not write into what the occurrences share)
+	if depth > 0 && g.r.Chance(0.35) {
+		for _, fr := range ss.Frags {
+			if fr.Named == "" || fr.On != typ || fr.Set == nil {
+				continue
+			}
+			var cand *xSel
+			for _, s2 := range fr.Set.Sels {
+				if s2.Field != nil && s2.Sub != nil {
+					if prev, ok := used[s2.Alias]; !ok || prev == s2.Field {
+						cand = s2
+						break
+					}
+				}
+			}
+			if cand == nil {
+				continue
+			}
+			own := false
+			for _, s2 := range ss.Sels {
+				if s2.Alias == cand.Alias {
+					own = true
+				}
+			}
+			if own {
+				continue
+			}
+			used[cand.Alias] = cand.Field
+			extra := &xSel{Alias: cand.Alias, Field: cand.Field}
+			switch cand.Field.Ty {
+			case "A", "B", "U":
+				extra.Sub = g.selSet(cand.Field.Ty, depth-1)
+			case "As", "Bs", "Us", "BsV":
+				extra.Sub = g.selSet(cand.Field.Ty[:1], depth-1)
+			}
+			if extra.Sub != nil {
+				ss.Frags = append(ss.Frags, &xFrag{On: typ, Set: &xSelSet{Sels: []*xSel{extra}}})
+			}
+			break
 		}
 	}
 	// repeat one of the selections under the same alias with its own sub-selection
